@@ -465,7 +465,8 @@ MEMORY_FORMULAS = ['1+2', 'va*vb+A1', 'SUM(lista)', 'foo', '1+', '#N/A', '1/0', 
                    'IFERROR(Z9,RAISE_REF())', '', 'SUMIF(lista,">1")', 'lista+listb']
 MEMORY_QUICK = ['1+2', 'foo', '1+', '#N/A', 'CONCATENATE(1/0)', 'SUM(1/0)', 'IFERROR(SUM(#REF!),1)', 'PYRAISE()', 'RAISE_NUM()+1',
                 'Z9', 'Y8+1', 'BADFN()', 'SUM(1,2,3', '@', 'va.vb', 'LARGE(lista,2)', 'EVALSELF("1+")', 'va*vb+A1']
-DISTINCT_TEMPLATES = ['%d+1', 'foo%d', 'SUM(%d,1/0)', '"s%d"&va', 'NOSUCH%d(1)', '%d+', 'va+%d']
+DISTINCT_TEMPLATES = ['%d+1', 'foo%d', 'COUNTIF(lista,">%d")', '"s%d"&va', 'SUM(%d,1/0)', 'SUMIF(lista,"<>%d")', 'MATCH("a%d*",lista,0)',
+                      'NOSUCH%d(1)', '%d+', 'va+%d', 'AVERAGEIF(lista,"<="&%d)', 'DATEVALUE("2020-01-%d")', 'A%d+1']
 
 
 def cases(rng, ctx):
@@ -505,7 +506,7 @@ def cases(rng, ctx):
         out.append({'kind': 'memory', 'f': f, 'debug': False})
     for f in (['foo', 'PYRAISE()', 'Z9', '1+'] if thorough else ['foo', 'PYRAISE()']):
         out.append({'kind': 'memory', 'f': f, 'debug': True})
-    for t in (DISTINCT_TEMPLATES if thorough else DISTINCT_TEMPLATES[:4]):
+    for t in (DISTINCT_TEMPLATES if thorough else DISTINCT_TEMPLATES[:6]):
         out.append({'kind': 'memory-distinct', 'template': t})
     return out
 
